@@ -366,3 +366,8 @@ Definition ex_diamond : fsys :=
     ([98], {| gimports := [[100]]; grules := [ex_rule [88] [[87]]; ex_rule [89] []] |});
     ([99], {| gimports := [[100]]; grules := [ex_rule [89] [[87]]; ex_rule [87] []] |});
     ([100], {| gimports := []; grules := [ex_rule [87] []; ex_rule [88] []] |}) ]%N.
+
+(* number of rules of the grammar file of a namespace / of a list of namespaces *)
+Definition nrules (fs : fsys) (ns : list N) : nat :=
+  match aget ns fs with Some f => length (grules f) | None => 0 end.
+Definition nrules_of (fs : fsys) (l : list (list N)) : nat := list_sum (map (nrules fs) l).
